@@ -124,6 +124,14 @@ func runC09(c *core.Ctx) *core.Violation {
 	case 1:
 		wops = append(wops, pipeOp{"closeerr", 0})
 	}
+	if wclose != 2 && t.Choose(4) == 3 {
+		// a second close of the other kind (the usual deferred Close after CloseWithError, or the reverse): the first one sticks
+		if wclose == 1 {
+			wops = append(wops, pipeOp{"close", 0})
+		} else {
+			wops = append(wops, pipeOp{"closeerr", 0})
+		}
+	}
 	for i := 0; i < nR; i++ {
 		if t.Chance(120) {
 			rops = append(rops, pipeOp{"buffered", 0})
@@ -135,6 +143,7 @@ func runC09(c *core.Ctx) *core.Violation {
 	closer := t.Choose(6)    // 0,1,2 none; 3 closes writer side; 4 closes reader side; 5 closes reader with error
 	closerDelay := t.Choose(40)
 	salt := byte(t.Choose(256))
+	readerSecondClose := t.Choose(4) == 3
 
 	c.Sample = map[string]interface{}{
 		"backend": backend, "capacity": capacity, "requested_size": reqSize,
@@ -165,6 +174,25 @@ func runC09(c *core.Ctx) *core.Violation {
 		readerInRead bool
 		readerWant   int
 	)
+	// close calls per side in invocation order; the first one wins if it returned before any other was invoked
+	type closeCall struct {
+		err      error
+		returned bool
+	}
+	var wCloses, rCloses []*closeCall
+	beginClose := func(list *[]*closeCall, err error) *closeCall {
+		cc := &closeCall{err: err}
+		*list = append(*list, cc)
+		return cc
+	}
+	// firstOf returns the error that must stick, or nil when the calls overlapped and either may have won
+	firstOf := func(list []*closeCall) error {
+		if len(list) == 0 {
+			return nil
+		}
+		return list[0].err
+	}
+	var wOverlap, rOverlap bool
 	oneOf := func(err error, set []error) bool {
 		for _, e := range set {
 			if errors.Equal(err, e) {
@@ -258,12 +286,22 @@ func runC09(c *core.Ctx) *core.Violation {
 				case "close":
 					wClosing = true
 					wErrs = append(wErrs, io.EOF)
+					if len(wCloses) > 0 && !wCloses[len(wCloses)-1].returned {
+						wOverlap = true
+					}
+					cc := beginClose(&wCloses, io.EOF)
 					w.Close()
+					cc.returned = true
 					wClosed = true
 				case "closeerr":
 					wClosing = true
 					wErrs = append(wErrs, errWriterCustom)
+					if len(wCloses) > 0 && !wCloses[len(wCloses)-1].returned {
+						wOverlap = true
+					}
+					cc := beginClose(&wCloses, errWriterCustom)
 					w.CloseWithError(errWriterCustom)
+					cc.returned = true
 					wClosed = true
 				}
 				if viol != nil {
@@ -327,6 +365,8 @@ func runC09(c *core.Ctx) *core.Violation {
 				gotWErrAt = int64(rDone)
 				if !oneOf(err, wErrs) {
 					fail("writer-error-identity", "", "reader got %v, writer side closed with %v", err, wErrs)
+				} else if fe := firstOf(wCloses); fe != nil && !wOverlap && wCloses[0].returned && !errors.Equal(err, fe) {
+					fail("writer-error-identity", "first-close-wins", "reader got %v, but the writer side was first closed with %v (closes in order: %d)", err, fe, len(wCloses))
 				}
 				return true
 			}
@@ -371,17 +411,29 @@ func runC09(c *core.Ctx) *core.Violation {
 						return
 					}
 				}
-			case 1:
-				rClosing = true
-				rErrs = append(rErrs, io.ErrClosedPipe)
-				r.Close()
-				rClosed = true
-				doRead(5)
-			case 2:
-				rClosing = true
-				rErrs = append(rErrs, errReaderCustom)
-				r.CloseWithError(errReaderCustom)
-				rClosed = true
+			case 1, 2:
+				first, second := error(io.ErrClosedPipe), error(errReaderCustom)
+				if readerEnd == 2 {
+					first, second = second, first
+				}
+				for i, e := range []error{first, second} {
+					if i == 1 && !readerSecondClose {
+						break
+					}
+					rClosing = true
+					rErrs = append(rErrs, e)
+					if len(rCloses) > 0 && !rCloses[len(rCloses)-1].returned {
+						rOverlap = true
+					}
+					cc := beginClose(&rCloses, e)
+					if errors.Equal(e, io.ErrClosedPipe) {
+						r.Close()
+					} else {
+						r.CloseWithError(e)
+					}
+					cc.returned = true
+					rClosed = true
+				}
 				doRead(5)
 			}
 		})
@@ -396,17 +448,32 @@ func runC09(c *core.Ctx) *core.Violation {
 				case 3:
 					wClosing = true
 					wErrs = append(wErrs, io.EOF)
+					if len(wCloses) > 0 && !wCloses[len(wCloses)-1].returned {
+						wOverlap = true
+					}
+					cc := beginClose(&wCloses, io.EOF)
 					w.Close()
+					cc.returned = true
 					wClosed = true
 				case 4:
 					rClosing = true
 					rErrs = append(rErrs, io.ErrClosedPipe)
+					if len(rCloses) > 0 && !rCloses[len(rCloses)-1].returned {
+						rOverlap = true
+					}
+					cc := beginClose(&rCloses, io.ErrClosedPipe)
 					r.Close()
+					cc.returned = true
 					rClosed = true
 				case 5:
 					rClosing = true
 					rErrs = append(rErrs, errReaderCustom)
+					if len(rCloses) > 0 && !rCloses[len(rCloses)-1].returned {
+						rOverlap = true
+					}
+					cc := beginClose(&rCloses, errReaderCustom)
 					r.CloseWithError(errReaderCustom)
+					cc.returned = true
 					rClosed = true
 				}
 			})
@@ -460,12 +527,16 @@ func runC09(c *core.Ctx) *core.Violation {
 			if parkedR {
 				wClosing = true
 				wErrs = append(wErrs, io.EOF)
+				cc := beginClose(&wCloses, io.EOF)
 				w.Close()
+				cc.returned = true
 				wClosed = true
 			} else {
 				rClosing = true
 				rErrs = append(rErrs, io.ErrClosedPipe)
+				cc := beginClose(&rCloses, io.ErrClosedPipe)
 				r.Close()
+				cc.returned = true
 				rClosed = true
 			}
 			for i := 0; i < 50 && !(writerFin && readerFin); i++ {
@@ -505,6 +576,11 @@ func runC09(c *core.Ctx) *core.Violation {
 				fail("write-after-rclose", "post", "Write after reader close: n=%d err=%v", n, err)
 			} else if !wClosed && !oneOf(err, rErrs) && !errors.Equal(err, io.ErrClosedPipe) {
 				fail("write-after-rclose", "wrong-error", "Write after reader close: %v (reader closed with %v)", err, rErrs)
+			} else if fe := firstOf(rCloses); !wClosed && fe != nil && !rOverlap && len(rCloses) > 1 && !errors.Equal(err, fe) {
+				fail("write-after-rclose", "first-close-wins", "Write after reader close: %v, but the reader side was first closed with %v", err, fe)
+			}
+			if len(rCloses) > 1 {
+				c.Probe("reader_closed_twice")
 			}
 		} else if wClosed {
 			// writer closed, reader open: drain then writer's error
@@ -526,6 +602,11 @@ func runC09(c *core.Ctx) *core.Violation {
 			n, err := r.Read(buf)
 			if n != 0 || !oneOf(err, wErrs) {
 				fail("writer-error-identity", "post", "after draining, Read returned n=%d err=%v, writer closed with %v", n, err, wErrs)
+			} else if fe := firstOf(wCloses); fe != nil && !wOverlap && !errors.Equal(err, fe) {
+				fail("writer-error-identity", "post,first-close-wins", "after draining, Read returned %v, but the writer side was first closed with %v", err, fe)
+			}
+			if len(wCloses) > 1 {
+				c.Probe("writer_closed_twice")
 			}
 			if n, err := w.Write([]byte{1}); err == nil || n != 0 {
 				fail("write-after-close", "post", "Write after writer close: n=%d err=%v", n, err)
@@ -570,6 +651,6 @@ func init() {
 			"file-backed pipe uses a real file in a per-run temp dir; disk errors are not injected",
 		},
 		RealVsStub: "real: pkg/libs/io/pipe (instrumented locks/conds), pkg/libs/errors; simulated: goroutine scheduling (simrt), clock (synctest)",
-		ProbeNames: []string{"wrapped_ring", "file_backend", "drained_after_wclose", "reader_closed", "third_party_close", "quiescent_with_parked_side"},
+		ProbeNames: []string{"wrapped_ring", "file_backend", "drained_after_wclose", "reader_closed", "third_party_close", "quiescent_with_parked_side", "writer_closed_twice", "reader_closed_twice"},
 	})
 }
